@@ -229,6 +229,51 @@ func init() {
 			return smt.Or(alts...)
 		}
 	}
+	// strings.Index / strings.Cut with a constant separator over a bounded string
+	indexOf := func(e *Exec, name string, sv view, sep string) *smt.Term {
+		M, ok := e.feasibleMax(sv.Len)
+		if !ok || M > 300 {
+			panic(engineErr("%s on a string of unbounded (or > 300 bytes) length", name))
+		}
+		res := smt.Const(^uint64(0), 64)
+		for j := M - len(sep); j >= 0; j-- {
+			cs := []*smt.Term{smt.ULe(c64(j+len(sep)), sv.Len)}
+			for k := 0; k < len(sep); k++ {
+				cs = append(cs, smt.Eq(sv.at(c64(j+k)), smt.Const(uint64(sep[k]), 8)))
+			}
+			res = smt.Ite(smt.And(cs...), c64(j), res)
+		}
+		return res
+	}
+	stubs["strings.Index"] = func(e *Exec, fn *ssa.Function, args []Value) Value {
+		sv := strView(args[0].(Str))
+		sep, ok := strView(args[1].(Str)).concrete()
+		if !ok || sep == "" {
+			panic(engineErr("strings.Index with a non-constant or empty separator"))
+		}
+		if cs, isC := sv.concrete(); isC {
+			return smt.Const(uint64(int64(strings.Index(cs, sep))), 64)
+		}
+		return indexOf(e, "strings.Index", sv, sep)
+	}
+	stubs["strings.Cut"] = func(e *Exec, fn *ssa.Function, args []Value) Value {
+		st := args[0].(Str)
+		sv := strView(st)
+		sep, ok := strView(args[1].(Str)).concrete()
+		if !ok || sep == "" {
+			panic(engineErr("strings.Cut with a non-constant or empty separator"))
+		}
+		if cs, isC := sv.concrete(); isC {
+			b, a, f := strings.Cut(cs, sep)
+			return Tuple{constStr(b), constStr(a), smt.BoolConst(f)}
+		}
+		idx := indexOf(e, "strings.Cut", sv, sep)
+		if e.branch(smt.Eq(idx, smt.Const(^uint64(0), 64))) {
+			return Tuple{st, constStr(""), smt.False}
+		}
+		after := smt.Add(idx, c64(len(sep)))
+		return Tuple{Str{Fn: st.Fn, Off: st.Off, Len: idx}, Str{Fn: st.Fn, Off: smt.Add(st.Off, after), Len: smt.Sub(st.Len, after)}, smt.True}
+	}
 	stubs["strings.ContainsAny"] = anyOf("strings.ContainsAny", false)
 	stubs["strings.ContainsRune"] = anyOf("strings.ContainsRune", false)
 	stubs["strings.IndexAny"] = anyOf("strings.IndexAny", true)
